@@ -1,4 +1,4 @@
-import NomtModel.Store.ConcToy
+import NomtModel.Store.TraceOrderToy
 /-!
 # C04 (and C03) — from the real CONCURRENT I/O trace to the crash theorems
 
@@ -23,7 +23,7 @@ This file is the bridge:
   discipline for its abstraction.
 -/
 namespace Nomt.C04
-open NomtDisk
+open NomtDisk Nomt.Store
 variable {Content MetaRec WalRec LogRec TreeAbs : Type} (P : Params Content MetaRec WalRec TreeAbs)
 
 /-- T4.3 **linearisation of a concurrent trace**.  For every concurrent trace `ct` of Begin / End events of effects and
@@ -132,7 +132,7 @@ example :
        absOf Toy.P img = absOf Toy.P CToy.d0 ∨ absOf Toy.P img = CToy.newAbs) ∧
     (∀ img, IsCImage (crun (cinit CToy.d0) CToy.good) img → absOf Toy.P img = CToy.newAbs) ∧
     absOf Toy.P CToy.d0 ≠ CToy.newAbs :=
-  have h := T4_5_concurrent_powerloss_atomic Toy.P CToy.d0 CToy.hinert CToy.cpre CToy.crest 2 Toy.m1 Toy.w1
+  have h := T4_5_concurrent_powerloss_atomic Toy.P CToy.d0 CToy.hinert CToy.cpre CToy.crest 10 Toy.m1 Toy.w1
     CToy.good_ord CToy.good_cont CToy.hwal Toy.hseq
   ⟨h.1, h.2 CToy.good_phase, CToy.old_ne_new⟩
 
@@ -146,5 +146,104 @@ theorem T4_6_overlapped_fsync_breaks_atomicity :
       absOf Toy.P img ≠ absOf Toy.P CToy.d0 ∧ absOf Toy.P img ≠ CToy.newAbs) ∧
     ¬ cAll ordChk 0 (cinit CToy.d0) CToy.bad :=
   ⟨⟨CToy.badImg, CToy.bad_image, CToy.bad_image_neither⟩, CToy.bad_rejected⟩
+
+/-! ## The monitor on the real trace -/
+
+/-- T4.7 **acceptance by the order monitor ⇒ the order discipline**.  If `checkOrder` (run by the driver on the real
+Begin / End trace of every operation, several threads) accepts the trace `tr`, then for EVERY choice `C` of the contents
+the trace does not carry and every start disk, the abstracted concurrent trace `absTrace C {} 0 tr` — page writes of
+`ln` / `bbn` / `ht`, WAL writes and truncations, the meta write, the fsyncs of these files, each End line paired with
+the effect the monitor pairs it with — passes the order discipline `ordChk` (hypothesis `hord` of T4.4 / T4.5); it ends
+in the monitor's phase, which is not 1: an operation that wrote the meta page returns only with it durable; and the
+effects left volatile are the ones the monitor reports as pending. -/
+theorem T4_7_monitor_implies_order_discipline (C : Contents Content MetaRec WalRec)
+    (tr : List IoEv2) (st : OrderSt) (h : checkOrder tr = .ok st) (d0 : Disk Content MetaRec WalRec LogRec) :
+    cAll ordChk 0 (cinit d0) (absTrace C {} 0 tr) ∧
+    phRun 0 (cinit d0) (absTrace (LogRec := LogRec) C {} 0 tr) = st.phase ∧ st.phase ≠ 1 ∧
+    (crun (cinit d0) (absTrace C {} 0 tr)).vol = st.pend.filterMap (absP C) :=
+  checkOrder_ok_ordChk C tr st h d0
+
+/-- T4.7a the same for the recovery performed by `open` (`checkRecoveryOrder`, C03): the abstracted trace passes the
+discipline of the post-switch-over phase — hash-table pages may be rewritten, the WAL is truncated only when no
+hash-table write is volatile, the meta page and the tree files are not written. -/
+theorem T4_7a_recovery_monitor_implies_order_discipline (C : Contents Content MetaRec WalRec)
+    (tr : List IoEv2) (st : OrderSt) (h : checkRecoveryOrder tr = .ok st) (d : Disk Content MetaRec WalRec LogRec) :
+    cAll ordChk 2 (cinit d) (absTrace C { phase := 2, walWritten := true } 0 tr) ∧
+    (crun (cinit d) (absTrace C { phase := 2, walWritten := true } 0 tr)).vol = st.pend.filterMap (absP C) :=
+  checkRecoveryOrder_ok_ordChk C tr st h d
+
+/-- T4.8 **the monitor's verdict, end to end**: the real trace `tr` is accepted by `checkOrder`; its abstraction writes
+the meta page (`hsplit`); the abstracted effects satisfy the content clauses of T4.1 (`hcont`; the placement half of
+`AllowedPre` is what the C17 monitor decides, T17.4), the WAL is durable at the switch-over (`hwal`).  Then every crash
+image of every prefix of the concurrent execution recovers to the old or to the new state, and every crash image once
+the operation has returned recovers to the new state. -/
+theorem T4_8_accepted_real_trace_powerloss_atomic (C : Contents Content MetaRec WalRec)
+    (tr : List IoEv2) (st : OrderSt) (hacc : checkOrder tr = .ok st)
+    (d0 : Disk Content MetaRec WalRec LogRec)
+    (hinert : ∀ b, htView P d0 b = d0.pages File.fHt b)
+    (cpre crest : List (CEv Content MetaRec WalRec LogRec)) (id : Nat) (m1 : MetaRec) (w1 : WalRec)
+    (hsplit : absTrace C {} 0 tr = cpre ++ CEv.effBegin id (.setMeta m1) :: crest)
+    (hcont : cAll (contChk (AllowedPre P d0) (contPost P w1)) 0 (cinit d0) (absTrace C {} 0 tr))
+    (hwal : (crun (cinit d0) cpre).dur.wal = some w1)
+    (hseq : P.walSeqn w1 = P.seqn m1) :
+    (∀ cp, cp <+: absTrace C {} 0 tr → ∀ img, IsCImage (crun (cinit d0) cp) img →
+       absOf P img = absOf P d0 ∨ absOf P img = absNew P (crun (cinit d0) cpre).dur m1 w1) ∧
+    (∀ img, IsCImage (crun (cinit d0) (absTrace C {} 0 tr)) img →
+       absOf P img = absNew P (crun (cinit d0) cpre).dur m1 w1) := by
+  obtain ⟨hord, hph, hne1, _⟩ := checkOrder_ok_ordChk C tr st hacc d0
+  rw [hsplit] at hord hcont hph
+  have h45 := T4_5_concurrent_powerloss_atomic P d0 hinert cpre crest id m1 w1 hord hcont hwal hseq
+  have hph2 : phRun 0 (cinit d0) (cpre ++ CEv.effBegin id (.setMeta m1) :: crest) = 2 := by
+    -- the trace wrote the meta page, so it does not end in phase 0; the monitor excludes phase 1
+    have hacc' : cAll (accChk (AllowedPre P d0) (okPost P w1)) 0 (cinit d0)
+        (cpre ++ CEv.effBegin id (.setMeta m1) :: crest) :=
+      cAll_mono _ _ (fun ph s ev h => acc_of_ord_cont P d0 w1 ph s ev h.1 h.2) _ _ _ (cAll_and _ _ _ _ _ hord hcont)
+    have hshape := (accepted_bridge (AllowedPre P d0) (okPost P w1) (okPost_stab P w1) d0 cpre crest id m1 hacc').2.2.2
+      _ (List.prefix_refl _)
+    have hge : 1 ≤ phRun 0 (cinit d0) (cpre ++ CEv.effBegin id (.setMeta m1) :: crest) := by
+      rw [phRun_append]
+      have h0 := (phase0_before_meta (AllowedPre P d0) (okPost P w1) (cinit d0) cpre _
+        (CEv.effBegin id (.setMeta m1)) (by simp) rfl hacc').1
+      rw [h0]
+      simp only [phRun, nextPhase, Eff.isMeta, and_self, if_true]
+      exact phRun_pos _ _ _ (Nat.le_refl 1)
+    generalize lin d0 (cpre ++ CEv.effBegin id (.setMeta m1) :: crest) = l at hshape
+    generalize phRun 0 (cinit d0) (cpre ++ CEv.effBegin id (.setMeta m1) :: crest) = ph at hshape hge hph
+    cases hshape with
+    | before _ _ => omega
+    | issued => exact absurd hph.symm hne1
+    | durable _ _ => rfl
+  rw [hsplit]
+  exact ⟨h45.1, h45.2 hph2⟩
+
+/-- non-vacuity of T4.7 / T4.8: `OToy.goodLines` is a trace in the format of the real hook (three threads, an fsync of
+`ln` issued while a write of `ln` is in flight and repeated afterwards); `checkOrder` accepts it, its abstraction is
+`CToy.good`, and T4.8 applies: all crash images of all prefixes are old or new, at the end new. -/
+example :
+    (checkOrder OToy.goodLines).toBool = true ∧
+    absTrace (LogRec := Nat) OToy.C {} 0 OToy.goodLines = CToy.good ∧
+    (∀ cp, cp <+: absTrace (LogRec := Nat) OToy.C {} 0 OToy.goodLines → ∀ img,
+      IsCImage (crun (cinit CToy.d0) cp) img →
+        absOf Toy.P img = absOf Toy.P CToy.d0 ∨ absOf Toy.P img = CToy.newAbs) := by
+  refine ⟨OToy.good_accepted, OToy.good_abs, ?_⟩
+  cases hc : checkOrder OToy.goodLines with
+  | error msg => have := OToy.good_accepted; rw [hc] at this; cases this
+  | ok st =>
+    have hcont : cAll (contChk (AllowedPre Toy.P CToy.d0) (contPost Toy.P Toy.w1)) 0 (cinit CToy.d0)
+        (absTrace (LogRec := Nat) OToy.C {} 0 OToy.goodLines) := by rw [OToy.good_abs]; exact CToy.good_cont
+    exact (T4_8_accepted_real_trace_powerloss_atomic Toy.P OToy.C OToy.goodLines st hc CToy.d0 CToy.hinert
+      CToy.cpre CToy.crest 10 Toy.m1 Toy.w1 OToy.good_abs hcont CToy.hwal Toy.hseq).1
+
+/-- … and `OToy.badLines`, the rendering of the trace of T4.6 (the second fsync of `ln` is missing), is REJECTED by
+`checkOrder`; its abstraction up to the rejected line is the prefix `CToy.badCut` of `CToy.bad`, which violates the
+order discipline and already has the crash image that is neither old nor new. -/
+example :
+    (checkOrder OToy.badLines).toBool = false ∧
+    absTrace (LogRec := Nat) OToy.C {} 0 OToy.badLines = CToy.badCut ∧ CToy.badCut <+: CToy.bad ∧
+    ¬ cAll ordChk 0 (cinit CToy.d0) CToy.badCut ∧
+    (∃ img, IsCImage (crun (cinit CToy.d0) CToy.badCut) img ∧
+      absOf Toy.P img ≠ absOf Toy.P CToy.d0 ∧ absOf Toy.P img ≠ CToy.newAbs) :=
+  ⟨OToy.bad_rejected, OToy.bad_abs, CToy.badCut_prefix, CToy.badCut_rejected,
+    ⟨CToy.badImg, CToy.badCut_image, CToy.bad_image_neither⟩⟩
 
 end Nomt.C04
